@@ -57,8 +57,9 @@ def run_case(case, chooser=None):
     w = net.w
     master = net.nodes["m"]
     timeout = case.get("timeout", 7.5)
-    obs = {"join": {}, "probe": {}, "c07": [], "table_at_barrier": None, "addrs_at_barrier": None}
+    obs = {"join": {}, "probe": {}, "c07": [], "table_at_barrier": None, "addrs_at_barrier": None, "chatter": []}
     joined = [0]
+    probe_done = [False]
     decided = {}
     if chooser is not None:
         def fault(pkt):
@@ -103,14 +104,37 @@ def run_case(case, chooser=None):
             obs["join"][i] = (a, w.now - t0, n.node_address)
             post(i, "renew_address")
             joined[0] += 1
+            nq = 0
             while joined[0] < len(ids):
-                net.serve(ctx, i, 5 * MS, hook)
+                if k in case.get("chatter", ()) and a is not None:
+                    # a connected node keeps asking the master while others are still joining
+                    # ("asking never disturbs the master")
+                    q = (n.lookup_address(i), a) if nq % 2 == 0 else (n.lookup_node_id(a), i)
+                    nq += 1
+                    obs["chatter"].append((i, "lookup_address" if nq % 2 else "lookup_node_id") + q)
+                    post(i, "lookup")
+                    net.serve(ctx, i, 11 * MS, hook)
+                else:
+                    net.serve(ctx, i, 5 * MS, hook)
             if obs["table_at_barrier"] is None:
                 obs["table_at_barrier"] = dict(master.dhcp_dict)
                 obs["addrs_at_barrier"] = {j: net.nodes[j].node_address for j in ids}
             if k != 0 or not case.get("script", True) or a is None:
+                if k == 0:
+                    probe_done[0] = True
+                # the other nodes keep running their application loop until the probing node is through (it may sit
+                # behind any of them), then for `tail` ms more
+                while case.get("script", True) and not probe_done[0]:
+                    net.serve(ctx, i, 5 * MS, hook)
                 net.serve(ctx, i, case.get("tail", 700) * MS, hook)
                 return
+            try:
+                probe(ctx, n, i, a)
+            finally:
+                probe_done[0] = True
+            net.serve(ctx, i, 100 * MS, hook)
+
+        def probe(ctx, n, i, a):
             net.serve(ctx, i, 20 * MS, hook)
             p = obs["probe"]
             table = obs["table_at_barrier"]
@@ -169,7 +193,9 @@ def run_case(case, chooser=None):
             if a2 is not None and case.get("master_release", True):
                 # the master expires the lease with its documented release_address(address); the node
                 # still holds the address: lookups must show the master's CURRENT mapping
-                net.serve(ctx, i, 20 * MS, hook)
+                # (150 ms of quiet first: the master may still be repeating its reply to a duplicate of the
+                # re-join request, and a lookup that meets a busy master is legitimately not answered)
+                net.serve(ctx, i, 150 * MS, hook)
                 p["master_release"] = master.release_address(a2)
                 p["own_id_after_master_release"] = n.lookup_address(i)
                 post(i, "lookup_address")
@@ -179,6 +205,15 @@ def run_case(case, chooser=None):
             post(i, "renew_address")
             net.serve(ctx, i, 30 * MS, hook)
             p["table_after_rejoin"] = dict(master.dhcp_dict)
+            if a2 is not None and case.get("stall_master", True) and chooser is None:
+                # the master's application stops calling update() (its radio still acknowledges): no answer -> -1
+                net.paused.add("m")
+                other = ids[-1] if len(ids) > 1 else i
+                p["stalled"] = [("lookup_address", other, n.lookup_address(other)),
+                                ("lookup_node_id", n.node_address, n.lookup_node_id(n.node_address)),
+                                ("lookup_node_id", O("3"), n.lookup_node_id(O("3")))]
+                post(i, "lookup")
+                net.paused.discard("m")
             net.serve(ctx, i, 100 * MS, hook)
         return f
 
@@ -229,6 +264,11 @@ def judge(case, obs, pid=PID):
     for i in ids:
         if i in obs["join"] and obs["join"][i][0] is not None and table.get(i) != obs["join"][i][0]:
             v.append(("%s/table-mismatch:%s" % (pid, shape), "id %d joined as %o but the master's table says %r" % (i, obs["join"][i][0], table.get(i))))
+    for i, call, res, want in obs.get("chatter", []):
+        # (other nodes are transmitting: "no answer" is a documented outcome, a wrong answer is not)
+        if res != want and res != -1:
+            v.append(("%s/lookup-while-others-join:%s" % (pid, call), "%s of id %d's own mapping returned %r while other nodes were joining, the mapping is %r" % (call, i, res, want)))
+            break
     for name, want_addr in (case.get("expect") or {}).items():
         i = int(name.split("-")[1])
         got_addr = obs["join"].get(i, (None,))[0]
@@ -297,6 +337,10 @@ def judge(case, obs, pid=PID):
                 v.append(("%s/rejoin-failed" % pid, "renew_address() after release returned %r after %.0f ms" % (a2, dt / 1e6)))
             elif a2 in others or p.get("table_after_rejoin", {}).get(me) != a2:
                 v.append(("%s/rejoin-bad-address" % pid, "re-joined as %o; other nodes %r; table %r" % (a2, sorted(others), p.get("table_after_rejoin"))))
+    for call, arg, res in (p or {}).get("stalled", []):
+        if res != -1:
+            v.append(("%s/no-answer-code:%s" % (pid, call), "%s(%s) returned %r while the master did not answer, documented -1" % (call, oct(arg) if call == "lookup_node_id" else arg, res)))
+            break
     if p and "master_release" in p:
         if p["master_release"] is not True:
             v.append(("%s/master-release:returned-%r" % (pid, p["master_release"]), "master.release_address(leased address) returned %r" % (p["master_release"],)))
@@ -369,6 +413,11 @@ def build_items(tier, seed):
     cases.append(dict(ids=[21, 22, 23, 24, 25, 26, 27], offsets=[j * 40 * MS for j in range(7)], cost=0, lat=1, seed=seed, mlen=24, tail=300))
     for oi, off in enumerate(itertools.permutations(range(4), 4)):
         cases.append(dict(ids=[11, 12, 13, 14], offsets=[OFFSETS[o] for o in off], cost=oi % 4, lat=(oi // 4) % 3, seed=seed, mlen=oi))
+    # connected nodes keep looking themselves up at the master while the others join (also past the five level-1 slots)
+    for ci, (idl, step) in enumerate((([41, 42, 43], 40), ([7, 8, 9, 10, 11, 12], 30), ([21, 22, 23, 24, 25, 26, 27], 60), ([7, 8, 9, 10, 11, 12], 5))):
+        for chat in ([0], [0, 1], [4] if len(idl) > 5 else [1]):
+            for (c_, l_) in ((0, 0), (2, 1)) if tier == "quick" else ((0, 0), (2, 1), (1, 2), (3, 0)):
+                cases.append(dict(ids=list(idl), offsets=[j * step * MS for j in range(len(idl))], cost=c_, lat=l_, seed=seed, mlen=5, tail=300, chatter=list(chat)))
     # a connected node that refuses children must stay silent (and clean) when others poll its level
     cases.append(dict(ids=[21, 22, 23, 24, 25, 26, 27, 28], offsets=[j * 40 * MS for j in range(8)], cost=0, lat=0, seed=seed, mlen=7, tail=300,
                       no_children=[22, 23], send_to=1))
@@ -405,6 +454,7 @@ def run(tier, seed, rep, only=None):
         rule="every case = (ids in join order, start offset per node from {0, 0.3, 5, 40 ms}, pairwise distinct, SPI-cost class, poll-latency class): all offset "
              "assignments for k<=3 (every id set; all 12 timing classes for k<=2, 3 per case for k=3 in the quick tier, all in the thorough tier), all join orders for k=3, "
              "thorough: every offset assignment for k=4 and k=5 from five offsets, 6- and 7-node runs that exhaust the master's five level-1 slots; "
+             "runs in which already connected nodes keep looking up their own mapping while the others join; "
              "after the join barrier the first node runs lookups (known, trivial, unknown), send-to-id, release, re-join. Fault part: the "
              "loss-free run plus EVERY single lost frame of a 1-node join+script and of a 2-node join. Non-trivial = distinct (case, fault choice).",
         bounds=dict(k_max=7 if tier == "quick" else 12, offsets_ns=list(OFFSETS), fault_deviation_bound=1 if tier == "quick" else 2),
